@@ -1,6 +1,6 @@
 import A2Verif.Lemmas.FsProdosPutI
 /-!
-# `put(fimg)` of a file into the volume directory, as a step (files of at most 256 chunks)
+# `put(fimg)` of a file into the volume directory, as a step
 -/
 namespace A2Verif.FsProdos
 open A2Verif.Fs.Prodos
@@ -14,7 +14,7 @@ theorem put_trace {d : Disk} {bm cnt : Nat} {ch : List Nat} (c : RootCtx d bm cn
     (hbok : BytesOk (effBuf d bm cnt)) (hshape : ShapeOk d.raw)
     (hfreeOrd : ∀ b, b < d.total → freeB (effBuf d bm cnt) b = true → b ∉ bmRange bm cnt ∧ b ∉ ch)
     (hzero : freeB (effBuf d bm cnt) 0 = false)
-    (f : FImg) (time nm : Bytes) (pk : PutOk f time) (h256 : f.end_ ≤ 256)
+    (f : FImg) (time nm : Bytes) (pk : PutOk f time)
     (hnodes : normalizePath (volName (hdrOf d.raw)) f.fullPath = .ok [volName (hdrOf d.raw), nm]) (hnm : nm ≠ [])
     (hv : isNameValid nm = true)
     (hnone : (dirSlots d.raw 2 ch).find? (isHit allTypes nm) = none)
@@ -31,7 +31,7 @@ theorem put_trace {d : Disk} {bm cnt : Nat} {ch : List Nat} (c : RootCtx d bm cn
           (4 + k * 39) e0) ∧
       (∀ j, freeB (effBuf d2 bm cnt) j = freeB (effBuf d bm cnt) j) ∧
       NewEntry e0 nm (f.fsType.getD 0 0) nb acc (f.aux.getD 0 0 + 256 * f.aux.getD 1 0) ∧
-      ((f.end_ = 1 ∧ SeedInv f d2 bm cnt e0 nb s dc Al) ∨ (2 ≤ f.end_ ∧ ∃ P, SapInv f d2 bm cnt e0 f.end_ s dc Al P)) ∧
+      LoopRes f d2 bm cnt e0 nb s dc Al ∧
       AState d2 bm cnt dc Al ∧ B ∉ Al ∧
       Next d d3 bm cnt
         (setUnit dc.raw B (patched (unitAt d2.raw B) (4 + k * 39) (Ent.setAccess (Ent.setEof s.entry f.eof) acc)))
@@ -163,15 +163,15 @@ theorem put_trace {d : Disk} {bm cnt : Nat} {ch : List Nat} (c : RootCtx d bm cn
     rw [getD_patched_out _ _ _ 0 (hlen B hBsz) (by rw [ne.len]; omega) (Or.inl (by omega)) (by omega),
       getD_patched_out _ _ _ 1 (hlen B hBsz) (by rw [ne.len]; omega) (Or.inl (by omega)) (by omega)]
     exact h0
-  have hfit2 : dataCount f f.end_ + (if f.end_ > 1 then 1 else 0) ≤ (freeBlocks (effBuf d2 bm cnt) d2.total).length := by
-    rw [← blocksNeeded_small f pk.keys h256]
+  have hfit2 : allocCount f f.end_ ≤ (freeBlocks (effBuf d2 bm cnt) d2.total).length := by
+    rw [← blocksNeeded_eq f pk.keys]
     unfold freeBlocks; rw [hfun, htot2]; exact hfit
   obtain ⟨s, dc, Al, d3, hwf, hres, ha, hBAl, n3⟩ := writeFile_trace (f := f) ctx B k hBnb (by rw [hsz2]; exact hBsz)
     (by rw [n2.eff, size_clearBit, size_clearBit]; exact hcovb B hBsz) (by rw [hu2B]; exact patched_length _ _ _)
     hk13 hkey hkind2 he0 ne (by rw [hf2]; exact hused B hB)
     (fun p hp => by rw [hfun, htot2, hfind] at hp; injection hp with hp; exact hp.symm)
     (by rw [hsrc2, hsrc]; rfl) (by have := pk.ne; intro h; exact this (List.eq_nil_of_length_eq_zero h))
-    pk.end_pos h256 hfit2 pk.first pk.bytes acc hacc
+    pk.end_pos pk.endle hfit2 pk.first pk.bytes acc hacc
   rw [if_pos pk.eof.1] at n3
   refine ⟨d2, _, s, dc, Al, d3, ?_, ctx, ?_, hf2, ne, hres, ha, hBAl,
     ⟨n3.st, n3.raw, n3.eff, by rw [n3.total, ha.total, htot2], by rw [n3.src, ha.src, hsrc2]⟩⟩
@@ -183,7 +183,7 @@ theorem put_trace {d : Disk} {bm cnt : Nat} {ch : List Nat} (c : RootCtx d bm cn
       rcases Nat.lt_or_ge 0 f.access.length with h | h
       · exact h
       · rw [List.getElem?_eq_none (by omega)] at hacc; cases hacc
-    rw [if_neg (by intro h; have := h.2; omega), if_neg (by intro h; have := h.2; have := pk.eof.2; omega)]
+    rw [if_neg (by intro h; have := h.2; omega), if_neg (by intro h; have := h.2; have := pk.eof.2; have := pk.endle; omega)]
     rw [bind_ok _ _ d _ _ hprep]
     simp only []
     rw [bind_ok _ _ _ _ _ hnum, if_neg (by omega), bind_ok _ _ _ _ _ hgd2]
